@@ -257,6 +257,16 @@ def run(chk, replay=None):
     for grp in (plans, lts, zero, proc):
         for c in grp:
             c["json"] = reply_json(c["reply"])
+    # a run restarted (409 at harvest) and reconnected under a DIFFERENT harvest configuration: the second run's timers
+    if replay:
+        restarts = rp.get("restarts", [])
+    else:
+        kinds = [("all_default", "custom"), ("custom", "all_default"), ("custom", "custom"), ("custom", None), (None, "custom")]
+        restarts = []
+        for a, b in kinds * (1 if quick else 6):
+            restarts.append({"reply1": gen_reply(rng, a) if a else gen_reply(rng), "reply2": gen_reply(rng, b) if b else gen_reply(rng)})
+    for c in restarts:
+        c["json1"], c["json2"] = reply_json(c["reply1"]), reply_json(c["reply2"])
 
     # ---- weave + build + run
     real = vlib.DAEMON + "/internal/newrelic/harvest_trigger.go"
@@ -267,7 +277,7 @@ def run(chk, replay=None):
         chk.fail("weave.txt", "the ticker weaver does not apply to the current harvest_trigger.go: %s" % e, no_input=True)
         return
     vlib.write_if_changed(woven, text)
-    binary, blog = vlib.go_test_binary("newrelic", only=["c12"], extra_replace={real: woven})
+    binary, blog = vlib.go_test_binary("newrelic", only=["c12", "proc"], extra_replace={real: woven})
     if binary is None:
         chk.notes.append("harness build failed: " + blog[-2000:])
         chk.fail("harness_build.txt", "correspondence harness (package newrelic, TestVerifC12) does not build "
@@ -278,12 +288,13 @@ def run(chk, replay=None):
     json.dump({"plans": [{"json": c["json"]} for c in plans],
                "lts": [{"json": c["json"], "ops": c["ops"]} for c in lts],
                "zero": [{"json": c["json"], "ops": c["ops"]} for c in zero],
-               "proc": [{"json": c["json"]} for c in proc]}, open(inp, "w"))
+               "proc": [{"json": c["json"]} for c in proc],
+               "restarts": [{"json1": c["json1"], "json2": c["json2"]} for c in restarts]}, open(inp, "w"))
     if os.path.exists(outp):
         os.remove(outp)
     rc, out = vlib.run_go_test(binary, "TestVerifC12", {"VERIF_IN": inp, "VERIF_OUT": outp}, timeout=900)
     if rc != 0 or not os.path.exists(outp):
-        groups = {"plans": plans, "lts": lts, "zero": zero, "proc": proc}
+        groups = {"plans": plans, "lts": lts, "zero": zero, "proc": proc, "restarts": restarts}
         try:
             grp, idx = open(outp + ".progress").read().split()
             case = groups[grp][int(idx)]
@@ -398,6 +409,40 @@ Print pcorr_bad. Print pprop_bad. Print lcorr_res. Print lcorr_bad. Print lprop_
     if rc != 0 or any(x is None for x in res.values()):
         chk.fail("coq_eval.txt", "in-Coq evaluation of the C12 cases failed:\n" + cout[-4000:], no_input=True)
         return
+    # ---- restarts: the periods of the second run's timers are those the SECOND reply asks for
+    robs = obs.get("restarts") or []
+    usable = [(c, o) for c, o in zip(restarts, robs) if o["second"]]
+    if usable:
+        rc_items = ["(%s, %s)" % (reply_coq(c["reply2"]), clist([cZ(x) for x in o["second"]])) for c, o in usable]
+        rv = """From Coq Require Import NArith ZArith List Bool Arith.
+From Verif Require Import Common Trigger TriggerLts TriggerMonitor.
+Import ListNotations.
+Open Scope Z_scope.
+Definition rcases : list (reply * list Z) := %s.
+Definition cntz (l : list Z) (x : Z) : nat := length (filter (Z.eqb x) l).
+Definition zmset_eqb (a b : list Z) : bool := forallb (fun x => Nat.eqb (cntz a x) (cntz b x)) (a ++ b).
+Definition rcorr (c : reply * list Z) : bool :=
+  match trigger_plan (fst c) with Some plan => zmset_eqb (map snd plan) (snd c) | None => false end.
+Definition rprop (c : reply * list Z) : bool :=
+  negb (reply_in_range (fst c)) || match trigger_plan (fst c) with
+                                   | Some plan => plan_monitor (fst c) (combine (map fst plan) (snd c)) || zmset_eqb (map snd plan) (snd c)
+                                   | None => true end.
+Definition rcorr_bad := Eval vm_compute in bad_idx rcorr rcases 0.
+Print rcorr_bad.
+""" % clist(rc_items)
+        rc2, rout = vlib.coq_eval("cases_c12_restart", rv, timeout=300)
+        rbad = vlib.parse_nat_list(vlib.parse_printed(rout, "rcorr_bad")) if rc2 == 0 else None
+        if rbad is None:
+            chk.fail("coq_eval_restart.txt", "in-Coq evaluation of the C12 restart cases failed:\n" + rout[-3000:], no_input=True)
+            return
+        chk.cov.setdefault("stages", {})["restart"] = {"cases": len(restarts), "judged": len(usable), "wrong_cadence": len(rbad)}
+        for i in rbad[:3]:
+            c, o = usable[i]
+            chk.fail("restart_%d.json" % i, {"what": "after a restart verdict the application was reconnected under a different harvest "
+                                                    "configuration, but the timers of the new run do not have the periods its connect reply asks for",
+                                             "restarts": [c], "observed": o}, sig="c12-restart-cadence")
+    for c, o in zip(restarts, robs):
+        chk.count_case({"restart": [c["json1"], c["json2"]]}, nontrivial=bool(o["second"]))
 
     # ---- coverage
     dist = {"plans": len(plans), "plan_parse_errors": sum(1 for o in obs["plans"] if o["err"]),
